@@ -713,6 +713,7 @@ pub fn property() -> Property {
     Property {
         id: "C15",
         subs: vec![sub::<CnfUtil>(), sub::<Small>(), sub::<Models>(), sub::<Hasher>()],
+        fuzz: vec![],
         assumptions: vec![
             "CNFs over <= 7 variables; exact small-integer weights",
             "hash(m) is only compared for assignments m that contain every decision in effect and falsify no clause, as the statement requires",
